@@ -1380,28 +1380,36 @@ def _local_reference_grads(mod, rec, wdt, absolute=False):
     return x64.grad, w64.grad, None if b64 is None else b64.grad
 
 
-def check_grads(w, d, rec, p):
+def check_grads(w, d, recs, p):
+    """Gradient oracle for one module over all its calls of this training step (several calls = gradient
+    accumulation: the parameter gradients are the sums over the calls, the input gradients stay per call)."""
     from optimum.quanto.tensor import QTensor
 
+    rec = recs[0]
     mod = rec.mod
     kind = R.module_kind(mod)
-    if kind not in ("linear", "conv") or rec.g_out is None:
+    if kind not in ("linear", "conv") or any(r.g_out is None for r in recs):
         return
     wdt = DTYPES[d.dtype]
     frozen = isinstance(mod.weight, QTensor)
     base = {"kind": kind, "wq": mod.weight_qtype.name if mod.weight_qtype else None, "aq": rec.aq.name if rec.aq else None, "dtype": d.dtype, "frozen": frozen, "in_rank": rec.input.ndim}
+    if len(recs) > 1:
+        base["calls"] = len(recs)
+        w.probe("gradient_accumulated_over_calls")
+    refs, mags = [], []
     try:
-        ref = _local_reference_grads(mod, rec, wdt)
-        mag = _local_reference_grads(mod, rec, wdt, absolute=True)
-    except Exception as e:
+        for r in recs:
+            refs.append(_local_reference_grads(mod, r, wdt))
+            mags.append(_local_reference_grads(mod, r, wdt, absolute=True))
+    except Exception:
         w.probe("grad_reference_not_evaluable")
         return
-    if ref is None or mag is None:
+    if any(x is None for x in refs + mags):
         w.probe("grad_reference_shape_mismatch")
         return
     w.judged("C11")
     u, u32 = R.eps_of(wdt), R.eps_of(torch.float32)
-    rows = max(1, rec.g_out.numel() // max(1, rec.g_out.shape[-1] if kind == "linear" else rec.g_out.shape[1]))
+    rows = sum(max(1, r.g_out.numel() // max(1, r.g_out.shape[-1] if kind == "linear" else r.g_out.shape[1])) for r in recs)
     ks = {"input": mod.weight.shape[0] * (1 if kind == "linear" else mod.weight[0, 0].numel()), "weight": rows, "bias": rows}
 
     def cmp(which, got, want, M):
@@ -1422,18 +1430,19 @@ def check_grads(w, d, rec, p):
             i = int(torch.nonzero(bad.reshape(-1))[0])
             w.violate("C11", "grads", "train", dict(base, which=which, issue="value"), f"{rec.name}: {which} gradient: {int(bad.sum())}/{bad.numel()} off; idx {i}: got {g64.reshape(-1)[i].item()} ref {want.reshape(-1)[i].item()} bound {bound.reshape(-1)[i].item()}", p)
 
-    if rec.g_in_local:
-        cmp("input", rec.g_in, ref[0], mag[0])
+    for r, ref, mag in zip(recs, refs, mags):
+        if r.g_in_local:
+            cmp("input", r.g_in, ref[0], mag[0])
     if frozen:
         if mod.weight.grad is not None:
             w.violate("C11", "nograd", "train", dict(base, which="frozen_weight"), f"{rec.name}: frozen weight received a gradient", p)
     else:
-        cmp("weight", mod.weight.grad, ref[1], mag[1])
+        cmp("weight", mod.weight.grad, sum(x[1] for x in refs), sum(x[1] for x in mags))
     if mod.bias is not None:
-        cmp("bias", mod.bias.grad, ref[2], mag[2])
+        cmp("bias", mod.bias.grad, sum(x[2] for x in refs), sum(x[2] for x in mags))
     for sn in ("input_scale", "output_scale"):
-        s = getattr(mod, sn)
-        if s.grad is not None:
+        sc = getattr(mod, sn)
+        if sc.grad is not None:
             w.violate("C11", "nograd", "train", dict(base, which=sn), f"{rec.name}: {sn} received a gradient", p)
 
 
@@ -1457,12 +1466,22 @@ def do_train(w, d, op, p):
     out = None
     try:
         with torch.enable_grad():
-            out = d.model(x)
-            o = out.dequantize() if R.is_q(out) else out
-            G = archs.gen_payload(tuple(o.shape), o.dtype, op.get("gseed", 1), "noise", op.get("gmag", 1.0))
-            if op.get("noncontig") and G.ndim >= 2:
-                G = G.transpose(-1, -2).contiguous().transpose(-1, -2)
-            o.backward(G)
+            outs, grads = [], []
+            xs = [x]
+            if op.get("input2"):
+                # gradient accumulation: two forwards share one backward
+                x2 = make_input(d, op["input2"])
+                if not R.is_q(x2):
+                    xs.append(x2.clone().requires_grad_(True))
+            for j, xi in enumerate(xs):
+                out = d.model(xi)
+                o = out.dequantize() if R.is_q(out) else out
+                G = archs.gen_payload(tuple(o.shape), o.dtype, op.get("gseed", 1) + j, "noise", op.get("gmag", 1.0))
+                if op.get("noncontig") and G.ndim >= 2:
+                    G = G.transpose(-1, -2).contiguous().transpose(-1, -2)
+                outs.append(o)
+                grads.append(G)
+            torch.autograd.backward(outs, grads)
     except (InjectedFault, InjectedInterrupt):
         raise
     except Exception as e:
@@ -1491,9 +1510,11 @@ def do_train(w, d, op, p):
     for r in recs:
         counts[r.name] = counts.get(r.name, 0) + 1
     if w.focus("C11"):
+        by_mod = {}
         for r in recs:
-            if counts[r.name] == 1:
-                check_grads(w, d, r, p)
+            by_mod.setdefault(r.name, []).append(r)
+        for name, rs in by_mod.items():
+            check_grads(w, d, rs, p)
     if w.focus("C08"):
         for r in recs:
             check_twin(w, d, r, p, "train")
